@@ -30,5 +30,9 @@ Definition wf_case (c : case) : bool :=
   | ZatSumRep v _ _ => vzat v
   | ZbSumRep v _ _ => vzb v
   | ZatDiv a d _ | ZatDivRem a d _ => vzat a && (0 <? d) && in_u64 d
+  | ZbConstFromI64 x _ => in_i64 x
+  | ZbConstFromU64 x _ | ZatConstFromU64 x _ => in_u64 x
+  | ZbIsPositive a _ | ZbIsNegative a _ => vzb a
+  | ZatIsZero z _ | ZatIsPositive z _ => vzat z
   end.
 
